@@ -145,7 +145,45 @@ def check_queries(fog, model, rnd, ctx):
             "raised PerfectVisibility" if isinstance(r, Raised) else "returned", len(model)))
 
 
+def run_wide(case, ctx):
+    """SCALE: a fog with several hundred unexplored prefixes (two full levels of 16, then more)"""
+    import random
+
+    rnd = random.Random(case.get("qseed", 0))
+    fog = HexaryTrieFog()
+    model = {()}
+    fog = cut(fog.explore, (), [(n,) for n in range(16)])
+    model = {(n,) for n in range(16)}
+    for n in range(16):
+        fog = cut(fog.explore, (n,), [(m,) for m in range(16)])
+        model.discard((n,))
+        model |= {(n, m) for m in range(16)}
+    for p in rnd.sample(sorted(model), case.get("extra", 20)):
+        segs = [(x,) for x in rnd.sample(range(16), 3)]
+        fog = cut(fog.explore, p, segs)
+        model.discard(p)
+        model |= {p + s for s in segs}
+    if members_internal(fog) != model:
+        raise Violation("fog-set", "wide fog: unexplored set differs from the model (%d vs %d prefixes)" % (len(members_internal(fog)), len(model)))
+    for _ in range(40):
+        check_queries(fog, model, rnd, ctx)
+    # queries at and beyond the last prefix, and before the first
+    sm = sorted(model)
+    for q in (sm[-1], sm[-1] + (15,), (15,) * 6, sm[0], (), sm[len(sm) // 2]):
+        r = cut(fog.nearest_unknown, q, expect=(PerfectVisibility,))
+        if isinstance(r, Raised) or tuple(int(x) for x in r) not in model:
+            raise Violation("fog-nearest-unknown", "wide fog (%d prefixes): nearest_unknown(%r) gave %r" % (len(model), q, r))
+    ser = cut(fog.serialize)
+    if not (cut(HexaryTrieFog.deserialize, ser) == fog):
+        raise Violation("fog-serialize", "wide fog does not round-trip")
+    ctx.count("wide_fogs")
+    ctx.count("wide_fog_prefixes", len(model))
+    ctx.evaluated()
+
+
 def run_case(case, ctx):
+    if case.get("wide"):
+        return run_wide(case, ctx)
     import random
 
     rnd = random.Random(case.get("qseed", 0))
@@ -350,6 +388,8 @@ def run_shard(ctx):
         run_case_guarded(mod, case, ctx)
         if ctx.full:
             return
+    for j in range(2 if ctx.tier == "quick" else 10):
+        run_case_guarded(mod, {"wide": True, "qseed": rnd.randrange(1 << 30), "extra": rnd.randint(5, 60), "steps": []}, ctx)
     for case in small_scope(ctx, 3 if ctx.tier == "quick" else 4):
         run_case_guarded(mod, case, ctx)
         ctx.count("exhaustive_sequences")
